@@ -179,9 +179,6 @@ LINES = [
 ]
 LINES = list(dict.fromkeys(LINES))
 
-SPECIAL = {"help", "--help", "-h"}
-
-
 def line_class(line):
     toks = line.split()
     if toks[:1] == ["help"] or "--help" in toks or "-h" in toks:
@@ -714,12 +711,12 @@ def bounded(ctx):
 
     # ------------------------------------------------------------ (a) histories
     max_len = 4 if quick else 6
-    n_sampled = 250 if quick else 12000
+    n_sampled = 250 if quick else 6000
     ctx.check("histories", ("one application vs fresh applications, run by run (status, stdout, stderr, handler calls): all %d ordered pairs "
                             "of the %d-line alphabet%s, the two D19 scenarios, and %d seeded sequences of length 3..%d") % (
         len(LINES) ** 2, len(LINES), "" if quick else " and all %d triples" % len(LINES) ** 3, n_sampled, max_len))
     fail = _Failer(ctx)
-    budget = 20 if quick else 500
+    budget = 20 if quick else 600
     t0 = time.time()
     complete = True
 
@@ -728,11 +725,11 @@ def bounded(ctx):
         yield ("help lax", "lax a extra --bogus")
         for p in itertools.product(LINES, repeat=2):
             yield p
-        if not quick:
-            for p in itertools.product(LINES, repeat=3):
-                yield p
         for _ in range(n_sampled):
             yield tuple(rng.choice(LINES) for _ in range(rng.randint(3, max_len)))
+        if not quick:  # last, so that a run cut by the time budget still has the long samples
+            for p in itertools.product(LINES, repeat=3):
+                yield p
 
     for lines in histories():
         if time.time() - t0 > budget or ctx.out_of_time():
